@@ -115,6 +115,24 @@ func New(ctx context.Context, log *slog.Logger, opts ...Opt) (*Engine, error) {
 		}
 	}
 
+	if smCfg.Genesis.InitialHeight == 0 {
+		// The chain was initialized by an earlier run, so maybeInitializeChain returned an empty genesis.
+		// The state machine still consults its genesis (initial height, validators, app state hash)
+		// when it starts at the initial height, i.e. when the process restarts before the first height
+		// was left; rebuild it from the finalization stored when the chain was initialized.
+		_, _, genValSet, genAppStateHash, genErr := smCfg.FinalizationStore.LoadFinalizationByHeight(
+			ctx, e.genesis.InitialHeight-1,
+		)
+		if genErr == nil {
+			smCfg.Genesis = tmconsensus.Genesis{
+				ChainID:             e.genesis.ChainID,
+				InitialHeight:       e.genesis.InitialHeight,
+				CurrentAppStateHash: []byte(genAppStateHash),
+				ValidatorSet:        genValSet,
+			}
+		}
+	}
+
 	// Set up a cancelable context in case any of the subsystems fail to create.
 	// We cancel the context in any error path to stop the subsystems,
 	// although we don't wait for them at that point.
